@@ -114,6 +114,28 @@ EXTRA = [
   w = ~(-(x > 2 or not b))
   return (a, c, d, w)
 '''),
+    ('o:decorator_call_on_nested_def', '''def tagged(k, m):
+  chk('tagged')
+  def deco(fn):
+    def inner(p):
+      return fn(p) + k + m
+    return inner
+  return deco
+
+def scale(k):
+  chk('scale')
+  return k * 2
+
+def f(x, n, b, xs):
+  @tagged(1, scale(n))
+  def second(p):
+    chk('second')
+    if p > x:
+      return p
+    return -p
+  a = second(n)
+  return a
+'''),
     ('o:while_in_lambda_caller', '''def f(x, n, b, xs):
   a = 0
   k = lambda u: u + 1 if u > x else u - 1
@@ -126,6 +148,14 @@ EXTRA = [
 ]
 
 
+OPAQUE_SAFE_EXOTIC = {
+    'k:annassign', 'k:pass_and_ellipsis', 'k:import_in_function', 'k:nested_class', 'k:multi_item_with',
+    'k:try_finally_flow', 'k:return_in_finally_and_with', 'k:while_complex_conditions',
+    'k:global_nonlocal_mix', 'k:nested_functions_depth3', 'k:recursion', 'k:conditional_expr_nesting',
+    'k:delete_and_rebind', 'k:docstrings_and_constants', 'k:shadowed_builtins',
+}
+
+
 def run(tier):
   R = common.Run('C04', tier, 'translation_validation', ENCODED)
   rnd = random.Random(R.seed)
@@ -136,6 +166,10 @@ def run(tier):
     sk3 = [p for p in gen.skeletons(3, chk=True) if p.name.count('>') == 2]
     progs = sk + rnd.sample(sk3, 200) + gen.random_programs(250, R.seed + 5, FEATURES, chk=True)
   progs += [gen.Prog(n, s, {'extra'}) for n, s in EXTRA]
+  # the hand-written programs that do not apply native-only operations (assert, f-string
+  # formatting, `is`, star-unpacking of opaque values, ...) to tracer values
+  from vf import exotic
+  progs += [p for p in exotic.programs() if p.name in OPAQUE_SAFE_EXOTIC]
   mr = random.Random(R.seed + 1)
 
   def mode_for(p):
